@@ -339,6 +339,20 @@ def gen_commit_cases(rng, tier):
                    edits=[rnd_edit(rng, idx, 0)] if kind in ("dup", "undef") else [])
 
 
+def _present(device, names):
+    """indexes of the schedules the device offers to the client after the responses"""
+    try:
+        return sorted(names.index(k) for k in (device.data.get("schedules") or {}))
+    except Exception as e:  # noqa: BLE001
+        return type(e).__name__
+
+
+def carried(resp):
+    """indexes a schedules response carries by the wire layout: 3 header bytes (the third is the number of
+    entries), then per entry index, switch, parameter triple and a 42-byte bitmap"""
+    return [resp[3 + 47 * k] for k in range(resp[2])] if len(resp) >= 3 and len(resp) >= 3 + 47 * resp[2] else None
+
+
 def run_device(cases):
     """per case: (list of edit outcomes, payload hex | exception name, extra) or 'err:<exc>'"""
     from pyplumio.devices.ecomax import EcoMAX
@@ -367,7 +381,11 @@ def run_device(cases):
                     return "err:" + type(e).__name__
                 await quiesce()
                 if c.get("keep") and kept is None:
-                    kept = device.data["schedules"][SCHEDULES[c["commit"]]]
+                    try:
+                        kept = device.data["schedules"][SCHEDULES[c["commit"]]]
+                    except Exception as e:  # noqa: BLE001 -- the schedule the response carried is not there: nothing to keep
+                        return [type(e).__name__ for _ in c["edits"]], type(e).__name__, dict(present=_present(device, SCHEDULES))
+            present = _present(device, SCHEDULES)
             outs = []
             for idx, day, st, a, b in c["edits"]:
                 try:
@@ -387,6 +405,7 @@ def run_device(cases):
                 payload = bytes(req.message).hex()
             except Exception as e:  # noqa: BLE001
                 payload = type(e).__name__
+            extra["present"] = present
             return outs, payload, extra
         finally:
             await device.shutdown()
@@ -463,6 +482,13 @@ def run_commit_cases(cases, res):
         outs, payload, extra = o
         wellformed = c["cls"] in ("edited", "unedited", "all-40", "kept-object")
         if wellformed:
+            # every schedule a well-formed response carries can be edited and committed afterwards: it is offered by the device
+            want_present = sorted(set(carried(bytes.fromhex(c["responses"][-1])) or []))
+            if "present" in extra and extra["present"] != want_present:
+                res.fail("spec", c, dict(schedules_on_device=want_present), dict(schedules_on_device=extra["present"], commit=payload),
+                         "a schedule carried by a well-formed schedules response is not offered by the device afterwards "
+                         "(it can be neither edited nor committed), or one that was not carried is")
+                continue
             if extra.get("frame") != "SetScheduleRequest" or extra.get("recipient") != 69 or extra.get("queue_left") != 0:
                 res.fail("spec", c, "one SetScheduleRequest addressed to the ecoMAX", dict(payload=payload, extra=extra),
                          "commit did not queue exactly one SetScheduleRequest for the device")
@@ -981,9 +1007,34 @@ def run_codec(rng, tier, res):
     for i in range(n):
         bm = bytes(rng.getrandbits(8) for _ in range(42)) if i > 3 else [bytes(42), b"\xff" * 42, bytes([0x80] + [0] * 41), bytes([0] * 41 + [1])][i]
         idx, sw, par = rng.randrange(40), rng.getrandbits(8), rng.getrandbits(8)
-        msg = bytes([0, 0, 1, idx, sw, par, 0, 255]) + bm
-        data = SchedulesResponse(message=bytearray(msg)).data
-        (didx, table), = data["schedules"]
+        # the entry stands at any place of a response with any header: first header byte arbitrary, the second (number of the
+        # first entry) 0, 1, 2, the entry's own index or arbitrary, the third the number of entries
+        before = [rng.randrange(40) for _ in range(rng.choice([0, 0, 0, 1, 2]))]
+        after = [rng.randrange(40) for _ in range(rng.choice([0, 0, 0, 1, 3]))]
+        first = rng.choice([0, 1, 1, 2, idx, (before + [idx])[0], rng.getrandbits(8)])
+        msg = bytes([rng.choice([0, 1, 0x10, rng.getrandbits(8)]), first, len(before) + 1 + len(after)])
+        for j in before:
+            msg += bytes([j, rng.getrandbits(8), rng.getrandbits(8), 0, 255]) + bytes(rng.getrandbits(8) for _ in range(42))
+        msg += bytes([idx, sw, par, 0, 255]) + bm
+        for j in after:
+            msg += bytes([j, rng.getrandbits(8), rng.getrandbits(8), 0, 255]) + bytes(rng.getrandbits(8) for _ in range(42))
+        cin = dict(part="codec", response=msg.hex(), entry=len(before), bitmap=bm.hex(), idx=idx, switch=sw, parameter=par)
+        res.count("codec:first-entry-number=%s" % ("0" if first == 0 else "1" if first == 1 else "other"))
+        res.count("codec:entries=%d" % (len(before) + 1 + len(after)))
+        try:
+            data = SchedulesResponse(message=bytearray(msg)).data
+            entries = list(data["schedules"])
+        except Exception as e:  # noqa: BLE001 -- a well-formed response decodes
+            res.fail("spec", cin, "the response decodes to its %d schedules" % (len(before) + 1 + len(after)), dict(raised=type(e).__name__),
+                     "decoding a well-formed schedules response raised")
+            res.case(("bitmap", bm))
+            continue
+        if [e[0] for e in entries] != before + [idx] + after:
+            res.fail("spec", cin, dict(decoded_indexes=before + [idx] + after), dict(decoded_indexes=[e[0] for e in entries]),
+                     "decoding a well-formed schedules response does not yield exactly the schedules it carries, in order")
+            res.case(("bitmap", bm))
+            continue
+        didx, table = entries[len(before)]
         reqs.append(f"s.decode {hexs(bm)}")
         want.append("/".join(bits(d) for d in table))
         enc = bytes(SetScheduleRequest(data={"type": S.SCHEDULES[idx], "switch": sw, "parameter": par, "schedule": table}).message)
@@ -991,7 +1042,7 @@ def run_codec(rng, tier, res):
         want.append(hexs(enc[4:]))
         res.case(("bitmap", bm))
         if enc != bytes([1, idx, sw, par]) + bm or didx != idx or [len(d) for d in table] != [48] * 7:
-            res.fail("spec", dict(part="codec", bitmap=bm.hex(), idx=idx, switch=sw, parameter=par), (bytes([1, idx, sw, par]) + bm).hex(), enc.hex(),
+            res.fail("spec", cin, (bytes([1, idx, sw, par]) + bm).hex(), enc.hex(),
                      "decoding and re-encoding an unedited schedule is not the identity")
     res.count("codec:bitmaps", n)
     answers = driver_batch(reqs)
@@ -1022,13 +1073,16 @@ def run(ctx):
         set_cases, commit_cases = set_cases[: ctx["max_cases"]], commit_cases[: ctx["max_cases"]]
     hist_cases = [c for c in corpus if c.get("part") == "history"] + \
         [gen_history(rng, i) for i in range(500 if ctx["tier"] == "quick" else 12000)]
-    run_set_cases(set_cases, res)
-    run_commit_cases(commit_cases, res)
-    run_history_cases(hist_cases, res)
     heap_cases = [c for c in corpus if c.get("part") == "heap"] + \
         [gen_heap_history(rng, i) for i in range(400 if ctx["tier"] == "quick" else 10000)]
-    run_heap_cases(heap_cases, res)
-    run_codec(rng, ctx["tier"], res)
+    from common import Parts
+    parts = Parts(res)
+    parts.run("set_state", run_set_cases, set_cases, res)
+    parts.run("receive / edit / commit", run_commit_cases, commit_cases, res)
+    parts.run("histories with a write queue", run_history_cases, hist_cases, res)
+    parts.run("histories with kept objects", run_heap_cases, heap_cases, res)
+    parts.run("codec", run_codec, rng, ctx["tier"], res)
+    parts.finish()
     res.extra["aligned_pairs_enumerated_completely"] = True
     res.extra["schedule_kinds_committed"] = len({c["commit"] for c in commit_cases})
     return res
